@@ -277,6 +277,83 @@ def run_fault(site, exc_i, real=False):
     return n
 
 
+# ------------------------------------------------------------ L9b: substitution graphs
+
+SUB_KEYS = ["a", "b", "env", "range", "dict", "namespace", "self"]
+SUB_SHAPES = ["lit", "self", "other", "list2+self", "list4+self", "quote4+other", "other+self", "list4+other"]
+SUB_PLAIN = ("a", "b", "env", "range", "dict", "namespace")  # keys that behave as ordinary variables in the docutils front end
+
+
+def _sub_value(shape, me, other):
+    ref = lambda k: "{{" + k + "}}"  # noqa: E731
+    nl = lambda d: "".join("  " * i + "- item\n" for i in range(d)) + "\n"  # noqa: E731
+    return {"lit": "plain *text*", "self": "x " + ref(me), "other": ref(other), "list2+self": nl(2) + ref(me), "list4+self": nl(4) + ref(me),
+            "quote4+other": "> " * 4 + "q\n\n" + ref(other), "other+self": ref(other) + " " + ref(me), "list4+other": nl(4) + ref(other)}[shape]
+
+
+def _sub_cyclic(subs_shapes, k1, k2):
+    """Is a cycle reachable from {{k1}} (for ordinary variable names)?"""
+    edges = {}
+    for me, other, shape in ((k1, k2, subs_shapes[0]), (k2, k1, subs_shapes[1])):
+        e = set()
+        if "self" in shape:
+            e.add(me)
+        if "other" in shape:
+            e.add(other)
+        edges.setdefault(me, set()).update(e) if me not in edges or me == k1 else None
+    seen, stack = set(), [(k1, (k1,))]
+    while stack:
+        k, path = stack.pop()
+        for n in edges.get(k, ()):
+            if n in path:
+                return True
+            stack.append((n, path + (n,)))
+    return False
+
+
+def run_subs(k1, k2, sh1, sh2, real=False):
+    subs = {k2: _sub_value(sh2, k2, k1)}
+    subs[k1] = _sub_value(sh1, k1, k2)  # k1 == k2: the first shape wins
+    doc, warn = CR.publish("{{" + k1 + "}}\n\nafter\n", {"myst_enable_extensions": ["substitution"], "myst_substitutions": subs}, real=real)
+    return doc, warn
+
+
+def make_subs(eng):
+    setup()
+    c = CR.Choice(eng)
+    state = {}
+    eng.witness_fn = lambda m: dict(state)
+
+    def body():
+        c.reset()
+        k1, k2 = c.pick(SUB_KEYS), c.pick(SUB_KEYS)
+        sh1, sh2 = c.pick(SUB_SHAPES), c.pick(SUB_SHAPES)
+        state.update(subs=[k1, k2, sh1, sh2])
+        try:
+            doc, warn = run_subs(k1, k2, sh1, sh2)
+        except Exception as e:  # noqa
+            eng.fail("substitution-escapes", "keys %r/%r shapes %s/%s: %s" % (k1, k2, sh1, sh2, _where(e)))
+        err = check_subs(doc, warn, k1, k2, sh1, sh2)
+        if err:
+            eng.fail(*err)
+        eng.passed(2)
+        if "substitution" in warn:
+            eng.note("fault-reported")
+        return "ok"
+
+    return body
+
+
+def check_subs(doc, warn, k1, k2, sh1, sh2):
+    from docutils import nodes
+
+    if not any(p.astext() == "after" for p in doc.findall(nodes.paragraph)):
+        return ("substitution-loses-content", "the paragraph after the substitution is gone")
+    if k1 in SUB_PLAIN and k2 in SUB_PLAIN and _sub_cyclic((sh1, sh2 if k1 != k2 else sh1), k1, k2) and "[myst.substitution]" not in warn:
+        return ("cycle-not-reported", "cyclic substitution %r/%r (%s/%s) produced no [myst.substitution] warning" % (k1, k2, sh1, sh2))
+    return None
+
+
 # ------------------------------------------------------------ L10: Sphinx link probe
 
 
@@ -371,6 +448,8 @@ def families(tier, seed):
     F.append(Family("L4-overrides", make_overrides, "front-matter override of %d (field, value) pairs (+ optional second) followed by a body that uses every option" % len(FIELD_VALUES), nontrivial="fault-reported", max_forks=100000))
     F.append(Family("L6-include", make_include, "include x faults %r x forms plain/literal/code" % (INC_FAULTS,), nontrivial="fault-reported", max_forks=100000))
     F.append(Family("L7-9,11-faults", make_renderer_faults, "inventory / slug function / Jinja / circular substitution / directive run() failing with %d exception classes" % len(EXCS), nontrivial="fault-reported", max_forks=100000))
+    F.append(Family("L9b-substitution-graphs", make_subs, "two substitution keys from %r x value shapes %r (self / mutual references behind nested lists and quotes), docutils front end" % (SUB_KEYS, SUB_SHAPES),
+                    nontrivial="fault-reported", max_forks=100000))
     F.append(Family("L10-sphinx-link", make_sphinx_link, "SphinxRenderer.render_link_unknown with destinations incl. over-long path components and NUL", nontrivial="fault-reported", max_forks=100000))
     soup = "#[](>-`{}:\na"
     for n in ([3] if q else [3, 4]):
@@ -396,6 +475,11 @@ def replay(label, witness):
         if "dest" in witness:
             run_sphinx_link(witness["dest"], real=True)
             return None
+        if "subs" in witness:
+            k1, k2, sh1, sh2 = witness["subs"]
+            doc, warn = run_subs(k1, k2, sh1, sh2, real=True)
+            err = check_subs(doc, warn, k1, k2, sh1, sh2)
+            return ("C01/%s" % err[0], err[1]) if err else None
         text = witness["text"]
         CR.publish(text, {"myst_enable_extensions": ["colon_fence", "deflist", "substitution", "attrs_block"], "myst_heading_anchors": 2, "report_level": 5}, real=True)
         return None
@@ -404,7 +488,7 @@ def replay(label, witness):
 
         tb = traceback.extract_tb(e.__traceback__)
         where = tb[-1].name if tb else "?"
-        what = witness.get("site") or witness.get("fault") or ("dest" in witness and "sphinx-link") or "document"
+        what = witness.get("site") or witness.get("fault") or ("dest" in witness and "sphinx-link") or ("subs" in witness and "substitutions") or "document"
         return ("C01/exception:%s@%s" % (type(e).__name__, where), "%s %r raised %s: %s" % (what, witness, type(e).__name__, str(e)[:200]))
 
 
